@@ -205,6 +205,7 @@ func s2sVal(v int) string {
 }
 
 var s2sMaster = string(PatBytes(201, 0, 512))
+
 func (d *smS2S) load(via string, keys []string, vals []int) (err error) {
 	vv := make([]string, len(vals))
 	for i, v := range vals {
@@ -778,7 +779,7 @@ func bigMapMonitor(c *Ctx) {
 }
 
 func checkC07(c *Ctx) {
-	c.rule = "MC: every subset of a key universe with the empty key and prefixes ({\"\",a,ab[,b]}) x every assignment of keys to slots (the hash is an arbitrary function chosen at load) x every slot-sorted item order x histories of 2 loads/failed loads/never loaded: Get = Go-map semantics for every probe and every slot the probe may hash to. TRACE: fresh instances of StrMap[int], StrMap[struct], Str2Str per size class (random maphash seeds => many chain shapes), reload histories (grow, shrink, failed load), never-loaded and empty instances, instances made by the four constructors and a zero-value Str2Str, adversarial collision chains of 9..40 keys in one slot (keys chosen against the instance's seed through the slot hook), maps up to 5000 keys; every load must be an enabled Load action on the REAL table read through the hook (slot-sorted, first-index table, prime slot count, Item enumeration), every Get must agree with MapAbs and with ImplGet on the real table. Maps of 10^5 keys and maps with giant keys / values (2^16 +-1, 2^20, 2^24 +-1 bytes) are compared with a Go map in Go (monitor). The Go-compared big maps sweep the sizes around every table step (0.75 x 2^13..2^18) and around 2^16 items through the three constructors. One map holds 257 distinct keys of 16 MiB (more than 4 GiB of key bytes)."
+	c.rule = "MC: every subset of a key universe with the empty key and prefixes ({\"\",a,ab[,b]}) x every assignment of keys to slots (the hash is an arbitrary function chosen at load) x every slot-sorted item order x histories of 2 loads/failed loads/never loaded: Get = Go-map semantics for every probe and every slot the probe may hash to. TRACE: fresh instances of StrMap[int], StrMap[struct], Str2Str per size class (random maphash seeds => many chain shapes), reload histories (grow, shrink, failed load), never-loaded and empty instances, instances made by the four constructors and a zero-value Str2Str, adversarial collision chains of 9..40 keys in one slot (keys chosen against the instance's seed through the slot hook), maps up to 5000 keys; every load must be an enabled Load action on the REAL table read through the hook (slot-sorted, first-index table, prime slot count, Item enumeration), every Get must agree with MapAbs and with ImplGet on the real table. Maps of 10^5 keys and maps with giant keys / values (2^16 +-1, 2^20, 2^24 +-1 bytes) are compared with a Go map in Go (monitor). The Go-compared big maps sweep the sizes around every table step (0.75 x 2^13..2^18) and around 2^16 items through the three constructors. One map holds 257 distinct keys of 16 MiB (more than 4 GiB of key bytes). Str2Str values include prefixes of one buffer (same start address, different lengths)."
 	if c.Thorough() {
 		c.MC("MC_StrMap.tla", "MC_StrMap_thorough.cfg", 12)
 	} else {
